@@ -8,6 +8,7 @@ from collections import deque
 
 from common import Outcome, close, f2h, h2f, np, rng_for, run_driver
 
+RULE_ADDENDA = ('NumPy-typed and bool values; sequences of 4 300-6 000 values; scale factors 1e-13 ... 1e9 with scale-following tolerances')
 LEVEL = "proof"
 EXPLANATION = ("Theorems (Lean): queue refinement to a bounded FIFO for arbitrary histories and element types, AccuracyQueue counts, "
                "Mean/EWMA/CircularMean/Prequential closed forms. This run: every reachable queue state for capacities 1..4 (BFS to closure on the "
